@@ -974,8 +974,8 @@ def simplify_program(prop, ops):
 
 def tiers(prop):
     if prop == "C16":
-        return {"quick": 12000, "thorough": 250000}
-    return {"quick": 10000, "thorough": 200000}
+        return {"quick": 12000, "thorough": 500000}
+    return {"quick": 10000, "thorough": 400000}
 
 
 # ---------------------------------------------------------------------------
